@@ -37,7 +37,7 @@ ASSUMPTIONS = [
 ]
 REQUIRED = {"queries": 3000, "nonempty_results": 500, "no_chunk_errors": 50, "empty_results": 100,
             "selection_queries": 100, "column_queries": 100, "seconds_queries": 20, "within_queries": 20,
-            "listing_checks": 1000, "two_target_queries": 200}
+            "listing_checks": 1000, "two_target_queries": 200, "computed_partial_queries": 300}
 UNIT_TIMEOUT = 1200
 
 SELECTIONS = [
@@ -241,6 +241,51 @@ def run_layout(lay, quick):
                 after = listing(d)
                 if after != before:
                     add("saved", f"partial request changed the storage: {sorted(set(after) ^ set(before))[:5]}", q)
+                    before = after
+        # ---- partial requests for data that has to be computed on the fly (outputs with policy EXPLICIT next to an
+        # ALWAYS sibling that is not stored yet): right rows, and nothing at all may be saved
+        spec2 = build_spec(lay)
+        spec2["plugins"] += [
+            {"name": "m", "type": "multi", "deps": ["ev"], "save_when": {"ma": "EXPLICIT", "mb": "ALWAYS"}, "rechunk_on_save": False},
+            {"name": "r2", "type": "row", "deps": ["ev"], "c": 2, "field": "v2", "save_when": "EXPLICIT", "rechunk_on_save": False}]
+        full2 = oracle.whole_run(spec2)
+        before = listing(d)
+        inside = [(a, b) for a, b in pairs if a < b and a < run_end and b > run_start]
+        for tgt2 in ("ma", "r2"):
+            qs = [{"rk": "time_range", "a": a, "b": b, "mode": mode} for a, b in rng.sample(inside, min(3, len(inside)))
+                  for mode in ("fully_contained", "touching")]
+            qs += [{"rk": "none", "a": None, "b": None, "mode": "fully_contained", "keep": ["time", "endtime"]},
+                   {"rk": "none", "a": None, "b": None, "mode": "fully_contained", "sel": 4}]
+            for q in qs:
+                q = dict(q, computed=tgt2)
+                kw = {"time_selection": q["mode"]}
+                sel_fn = None
+                if q["rk"] == "time_range":
+                    kw["time_range"] = (q["a"], q["b"])
+                if "keep" in q:
+                    kw["keep_columns"] = tuple(q["keep"])
+                if "sel" in q:
+                    sname, fn = SELECTIONS[q["sel"]]
+                    if fn is None:
+                        sname = sname.format(u=u)
+                        fn = lambda x, _u=u: (x["endtime"] - x["time"]) > _u  # noqa: E731
+                    kw["selection"] = fn if sname == "CALLABLE" else sname
+                    sel_fn = fn
+                want, names = ref_filter(full2[tgt2], q["a"], q["b"], q["mode"], sel_fn, q.get("keep"), None)
+                cnt["computed_partial_queries"] = cnt.get("computed_partial_queries", 0) + 1
+                try:
+                    with common.quiet():
+                        got = hrun.make_context(spec2, d, cfg).get_array("0", tgt2, progress_bar=False, **kw)
+                except Exception as e:  # noqa: BLE001
+                    if "Timeout" not in type(e).__name__:
+                        add("exception", f"partial request {kw} for {tgt2} (computed from stored ev) failed: {e!r}", q, e)
+                    continue
+                if not same_rows(got, want, names):
+                    add("rows", f"computed {tgt2}, query {kw}: got {got.tolist()} want {want[names].tolist() if names else []}", q)
+                cnt["listing_checks"] = cnt.get("listing_checks", 0) + 1
+                after = listing(d)
+                if after != before:
+                    add("saved", f"partial request for {tgt2} changed the storage: {sorted(set(after) ^ set(before))[:5]}", q)
                     before = after
     finally:
         hrun.rm(d)
